@@ -180,3 +180,30 @@ func (c *Check) addressRoles(rule string) {
 	}
 	c.req(n >= 20, rule, "address-role-sites", token.NoPos, fmt.Sprintf("%d key arguments with a determinable address role in %d families/positions", n, len(keys)))
 }
+
+// withdrawAddressSet (C13): "only the owner's own message changes its withdrawal address" — and that message does change
+// it: the handler of the set-withdraw-address message stores, on every committed path, the message's WithdrawAddress under
+// the message's Owner (no condition on the address: an owner can point its earnings back to itself), and no other message
+// handler writes that family.
+func (c *Check) withdrawAddressSet(rule string) {
+	n := 0
+	for _, en := range c.entries(rule) {
+		for _, e := range c.P.SummaryOf(en.Handler).Effs {
+			if e.Kind != "store" || e.Family != "0x07" || !(e.Op == "Set" || e.Op == "Delete") {
+				continue
+			}
+			if en.Msg != "MsgSetWithdrawAddress" {
+				c.fail(rule, effConstruct(en.Msg, e)+"#foreign-writer", e.Pos, "the withdrawal-address family is written by a message other than the owner's set-withdraw-address message")
+				continue
+			}
+			n++
+			k := keyArgs(e)
+			okKey := len(k) == 1 && k[0].String() == fmt.Sprintf("(.%s.Owner %s)", en.Msg, en.MsgArg)
+			okVal := e.Val != nil && stripConv(stripSpread(e.Val)).ContainsOp("."+en.Msg+".WithdrawAddress")
+			c.req(e.Op == "Set" && okKey && okVal, rule, effConstruct(en.Msg, e)+"#args", e.Pos, "the message's WithdrawAddress is stored under the message's Owner: key "+fmtTerms(k)+" value "+shortTerm(e.Val))
+			c.req(e.Must && len(e.Guards) == 0, rule, effConstruct(en.Msg, e)+"#unconditional", e.Pos,
+				"the address is stored on every committed path of the handler, under no condition"+condStr(len(e.Guards) > 0, ": guarded by "+strings.Join(e.Guards.Sorted(), " ∧ ")))
+		}
+	}
+	c.req(n == 1, rule, "MsgSetWithdrawAddress#store", token.NoPos, fmt.Sprintf("%d store of the withdrawal address by its message handler", n))
+}
